@@ -641,8 +641,13 @@ func genAffinity(r *rng, c genCfg) (*scenario, string) {
 			}
 			sc.Opts = append(sc.Opts, o)
 		}
-		out := lab{Ty: S}
-		f := c.newConv(r, sc, []lab{out}, []lab{{Ty: T}})
+		outs := []lab{{Ty: S}}
+		if len(pnames) >= 2 && r.chance(1, 3) {
+			// one converter run yields every named parameter at once: each parameter must still come from the run on
+			// the input of its own name, not from whatever an earlier run left in its vertex
+			outs = append([]lab(nil), target.Ins...)
+		}
+		f := c.newConv(r, sc, outs, []lab{{Ty: T}})
 		f.Script, f.Once = "ok", false
 		sc.Opts = append(sc.Opts, optSpecC{Kind: []string{"conv", "convfunc"}[r.intn(2)], Fids: []int{f.ID}})
 		if f.Form == "built" {
